@@ -1,0 +1,14 @@
+//go:build verif
+
+package ansi
+
+// VerifEscTimerHook, when set, is called by the Escape-timer callback: with 0 when the callback
+// starts (before it does anything) and with 1 when it returns. Verification harnesses use it to
+// hold the callback and release it at a chosen point of the run loop. It changes no behaviour.
+var VerifEscTimerHook func(phase int)
+
+func verifEscTimer(phase int) {
+	if h := VerifEscTimerHook; h != nil {
+		h(phase)
+	}
+}
